@@ -105,9 +105,11 @@ pub enum TokenType {
 
     // Separate the single byte and double byte representations
     // because those have different valid prefixes.
-    #[regex(r"'[^']*'")]
+    // A dollar sign escapes the following character, which may be the
+    // quote (IEC 61131-3 tables 5 and 6: $' and $").
+    #[regex(r"'([^'$]|\$[^\n])*'")]
     SingleByteString,
-    #[regex("\"[^\"]*\"")]
+    #[regex("\"([^\"$]|\\$[^\n])*\"")]
     DoubleByteString,
 
     // B.1.1 Letters, digits and identifier
